@@ -47,9 +47,14 @@ for k in (1, 2):
         continue
     # run our checks against it
     ids = checks or [pid]
-    ev = sh("/verif/mutant_eval.py %s %s" % (patch, " ".join(ids)))
-    print(ev.stdout)
-    flagged = re.search(r"FLAGGED-BY: (.*?)  INCONCLUSIVE: (.*)", ev.stdout)
+    if "--no-checks" in sys.argv:
+        # checks are run afterwards by seed_matrix.py on a private copy of /repo
+        class ev: stdout = ""
+        flagged = None
+    else:
+        ev = sh("/verif/mutant_eval.py %s %s" % (patch, " ".join(ids)))
+        print(ev.stdout)
+        flagged = re.search(r"FLAGGED-BY: (.*?)  INCONCLUSIVE: (.*)", ev.stdout)
     out = "/verif/seeded/%s-%s%d" % (pid, tag, k)
     os.makedirs(out, exist_ok=True)
     shutil.copy(patch, out + "/patch.diff")
